@@ -104,19 +104,21 @@ func (ipItems *IPItems) checkMerge(i, j int) int {
 			items[i].endIP = items[j].endIP
 		}
 
-		items[j].startIP = net.IPv6zero
-		items[j].endIP = net.IPv6zero
+		// a deleted slot is marked with nil IPs: out of band, no inserted IP is nil (and nil sorts last)
+		items[j].startIP = nil
+		items[j].endIP = nil
 
 		mergedNum++
 
 		// Merge items [i+1, j)
 		for k := i + 1; k < j; k++ {
-			if items[k].endIP.Equal(net.IPv6zero) || items[k].endIP.Equal(net.IPv4zero) {
+			// skip deleted slots; never drop an entry that starts below the merged range
+			if items[k].endIP == nil || bytes.Compare(items[k].startIP, items[i].startIP) < 0 {
 				continue
 			}
 
-			items[k].startIP = net.IPv6zero
-			items[k].endIP = net.IPv6zero
+			items[k].startIP = nil
+			items[k].endIP = nil
 			mergedNum++
 		}
 	}
@@ -149,12 +151,12 @@ func (ipItems *IPItems) mergeItems() int {
 
 	for i := 0; i < length-1; i++ {
 
-		if items[i].endIP.Equal(net.IPv6zero) || items[i].endIP.Equal(net.IPv4zero) {
+		if items[i].endIP == nil {
 			continue
 		}
 
 		for j := i + 1; j < length; j++ {
-			if items[j].endIP.Equal(net.IPv6zero) || items[i].endIP.Equal(net.IPv4zero) {
+			if items[j].endIP == nil {
 				continue
 			}
 
